@@ -3,6 +3,7 @@ package scen
 import (
 	"encoding/json"
 	"fmt"
+	"github.com/dgraph-io/badger"
 	"math/rand/v2"
 	"net/url"
 	"os"
@@ -14,6 +15,7 @@ import (
 	"github.com/jirenius/go-res/store"
 	"github.com/jirenius/go-res/store/badgerstore"
 	"github.com/jirenius/keylock"
+	"github.com/jirenius/taskqueue"
 
 	"verif/sim/model"
 	"verif/sim/sched"
@@ -26,7 +28,8 @@ type QSubCase struct {
 	QueryMs  int        `json:"query_ms"`
 	Mutators [][]IdxMut `json:"mutators"`
 	Optional []string   `json:"optional"`
-	Affected bool       `json:"affected"` // AffectedResources callback on the parameterised resource
+	Affected bool       `json:"affected"`         // AffectedResources callback on the parameterised resource
+	TQCap    int        `json:"tq_cap,omitempty"` // capacity of the index task queue (0 = the library's 256)
 }
 
 // QSubScenario: clients holding query results through store.QueryHandler are
@@ -37,7 +40,7 @@ func (QSubScenario) Name() string { return "qsub" }
 
 func (QSubScenario) GenCase(r *rand.Rand, prop string) interface{} {
 	c := &QSubCase{Workers: pick(r, 1, 2, 4), QueryMs: pick(r, 50, 1000), Affected: true}
-	for _, p := range append(append([]string{}, storePoints...), "updateIndex.afterCommit", "conn.Publish", "event", "rawEvent", "worker.beforeCb", "queryListener.recv", "runWith.beforeLock", "handleRequest", "auto.lock") {
+	for _, p := range append(append([]string{}, storePoints...), "tq.do", "tq.next", "updateIndex.afterCommit", "conn.Publish", "event", "rawEvent", "worker.beforeCb", "queryListener.recv", "runWith.beforeLock", "handleRequest", "auto.lock") {
 		if chance(r, 60) {
 			c.Optional = append(c.Optional, p)
 		}
@@ -51,6 +54,7 @@ func (QSubScenario) GenCase(r *rand.Rand, prop string) interface{} {
 		}
 		c.Mutators = append(c.Mutators, muts)
 	}
+	c.TQCap = pick(r, 0, 0, 1, 2)
 	return c
 }
 
@@ -102,13 +106,23 @@ func (QSubScenario) Execute(sim *sched.Sim, ci interface{}, prop string, race bo
 	defer db.Close()
 	res.VerifHook = sim.Yield
 	badgerstore.VerifHook = sim.Yield
+	badger.VerifHook = sim.Yield
 	keylock.Hook = sim.Yield
-	defer func() { res.VerifHook = nil; badgerstore.VerifHook = nil; keylock.Hook = nil }()
+	taskqueue.Hook = sim.Yield
+	defer func() {
+		res.VerifHook = nil
+		badgerstore.VerifHook = nil
+		badger.VerifHook = nil
+		keylock.Hook = nil
+		taskqueue.Hook = nil
+	}()
 
 	st := badgerstore.NewStore(db).SetType(idxRec{}).SetPrefix("it")
+	badgerstore.VerifTaskCapacity = c.TQCap
 	qs := badgerstore.NewQueryStore(st, func(qs *badgerstore.QueryStore, q url.Values) (*badgerstore.IndexQuery, error) {
 		return &badgerstore.IndexQuery{Index: qs.Index("k"), KeyPrefix: []byte(q.Get("p")), Limit: -1}, nil
 	})
+	badgerstore.VerifTaskCapacity = 0
 	qs.AddIndex(badgerstore.Index{Name: "k", Key: func(v interface{}) []byte {
 		r := v.(idxRec)
 		return idxKeyOf("k", &r)
